@@ -11,6 +11,8 @@ import sys
 SEEDS = sorted(glob.glob("/verif/seeded/C*-*/"))
 PROPS = [c["property_id"] for c in json.load(open("/verif/MANIFEST.json"))["checks"]]
 NW = 8
+import threading
+_GIT_LOCK = threading.Lock()
 
 
 
@@ -33,10 +35,11 @@ def sh(cmd, cwd=None, env=None):
 
 def work(args):
     i, seeds = args
-    wt = "/tmp/mwt_%d" % i
-    ev = "/tmp/mev_%d" % i
+    wt = "/tmp/mwt_%d_%d" % (os.getpid(), i)
+    ev = "/tmp/mev_%d_%d" % (os.getpid(), i)
     if not os.path.isdir(wt):
-        rc, out = sh("git -C /repo worktree add -q --detach %s HEAD" % wt)
+        with _GIT_LOCK:
+            rc, out = sh("git -C /repo worktree add -q --detach %s HEAD" % wt)
         assert rc == 0, out
     sh("git checkout -q --detach $(git -C /repo rev-parse HEAD); git checkout -- .; git clean -fdq", cwd=wt)
     out = {}
@@ -60,12 +63,27 @@ def work(args):
                             "rules": sorted({d.split("rule=")[1].split()[0] for d in diag if "rule=" in d})}
         out[name] = res
         sh("git checkout -- .", cwd=wt)
-    sh("git -C /repo worktree remove --force %s" % wt)
+    with _GIT_LOCK:
+        sh("git -C /repo worktree remove --force %s" % wt)
     sh("rm -rf %s" % ev)
     return out
 
 
 def main():
+    only = [a for a in sys.argv[1:] if not a.startswith("-")]
+    if only:
+        # ad-hoc look at a few seeds: print, do not rewrite MATRIX.md / meta.json
+        sel = [s for s in SEEDS if os.path.basename(s.rstrip("/")) in only]
+        snap = make_snapshot()
+        os.environ["SA_SNAP"] = snap
+        nw = min(NW, len(sel)) or 1
+        with cf.ThreadPoolExecutor(nw) as ex:
+            for r in ex.map(work, [(i, sel[i::nw]) for i in range(nw)]):
+                for name, res in sorted(r.items()):
+                    print(name, "; ".join("%s[%s]" % (p, ",".join(v.get("rules", [])) or "exit%s" % v.get("exit"))
+                                          for p, v in sorted(res.items()) if isinstance(v, dict) and "exit" in v) or "-")
+        sh("rm -rf %s" % snap)
+        return
     chunks = [(i, SEEDS[i::NW]) for i in range(NW)]
     results = {}
     snap = make_snapshot()
